@@ -369,9 +369,15 @@ func (v *numericValidator) generate(out *codegen.Emitter, format string) {
 	}
 
 	if v.multipleOf != nil {
-		if v.roundToInt {
+		switch {
+		case v.roundToInt && *v.multipleOf != math.Trunc(*v.multipleOf):
+			// A fractional divisor of an integer: int64(2.5) would check multiples of 2, and int64(0.5) divides by zero.
+			out.Printlnf(`if %s math.Abs(math.Mod(float64(%s%s), %v)) > 1e-10 {`, checkPointer, pointerPrefix, value, *v.multipleOf)
+
+		case v.roundToInt:
 			out.Printlnf(`if %s %s%s %% %v != 0 {`, checkPointer, pointerPrefix, value, v.valueOf(*v.multipleOf))
-		} else {
+
+		default:
 			operand := pointerPrefix + value
 			if v.fieldName == "" {
 				// The value of a named number type is of a defined type, which math.Mod does not take.
